@@ -611,6 +611,24 @@ func inflatedInputs(r *rng, m any, enc []byte, max int) [][]byte {
 	lens := map[int]bool{}
 	collectLens(reflect.ValueOf(m), lens, 0)
 	var out [][]byte
+	// a frame's own length field (its value after Encode): boundary values around 2^32 and 2^31, and off-by-one
+	if t := typeOfMsg(m); t != nil && t.Frame.Len >= 0 {
+		lv := bitsOf(reflect.ValueOf(m).Elem().Field(t.Frame.Len))
+		for _, le := range []bool{false, true} {
+			pat := countBytes(le, 4, lv)
+			for off := 0; off+4 <= len(enc) && off < 64; off++ {
+				if !bytes.Equal(enc[off:off+4], pat) {
+					continue
+				}
+				for _, claim := range []uint64{0xffffffff, 0xfffffffe, 0xfffffffd, 0xfffffffc, 0xfffffffb, 0x80000000, 0x7fffffff, 0x80000001, lv + 1, lv - 1, lv + 4, 0} {
+					c := append([]byte{}, enc...)
+					copy(c[off:off+4], countBytes(le, 4, claim&0xffffffff))
+					out = append(out, c)
+				}
+				break
+			}
+		}
+	}
 	for n := range lens {
 		if n < 2 {
 			continue
